@@ -1,0 +1,34 @@
+//go:build verif
+
+// Export shims for the verification harness under /verif (build tag "verif" only), property C10.
+package core
+
+import (
+	"istio.io/istio/pilot/pkg/networking"
+	"istio.io/istio/pilot/pkg/security/authn"
+)
+
+// VerifChainOpt is the projection of one FilterChainMatchOptions entry together with the transport socket
+// that inboundChainForOpts would attach to it (ToTransportSocket).
+type VerifChainOpt struct {
+	TransportProtocol string
+	Protocol          networking.ListenerProtocol
+	ALPNs             int
+	TLS               bool
+	HasSocket         bool
+	RequireClientCert bool
+}
+
+// VerifFilterChainMatchOptions exposes getFilterChainMatchOptions + ToTransportSocket.
+func VerifFilterChainMatchOptions(settings authn.MTLSSettings, protocol networking.ListenerProtocol) []VerifChainOpt {
+	var out []VerifChainOpt
+	for _, o := range getFilterChainMatchOptions(settings, protocol) {
+		v := VerifChainOpt{TransportProtocol: o.TransportProtocol, Protocol: o.Protocol, ALPNs: len(o.ApplicationProtocols), TLS: o.TLS}
+		if ts := o.ToTransportSocket(settings); ts != nil {
+			v.HasSocket = true
+			v.RequireClientCert = ts.GetRequireClientCertificate().GetValue()
+		}
+		out = append(out, v)
+	}
+	return out
+}
